@@ -2203,6 +2203,9 @@ def run_obj_history(init_i, seed, hist, st, fails_out, judge_all=True, pool=None
             else:
                 succ, status, ne, dirty = execute(obj, snap, fp, pev + ("cp",), "path", fails, st)
             nexec += ne
+            if fails:  # say that this is a probe on an object with a history
+                where = f"one object, step {j + 1} of the history [" + "; ".join(obj_event_text(e, ()) for e in hist[: j + 1]) + "]: "
+                fails[:] = [(dict(c, tier="one_object"), where + m) for c, m in fails]
             if full and status == "ok" and not fails and pev[0] in METHOD:
                 rf = exc = None
                 try:
